@@ -327,6 +327,7 @@ func ExecuteCrash(t *testing.T, c *Case, prof *Profile, keepHist bool) Outcome {
 		}
 		max := 400
 		r.disk = NewDiskTracker(uniqueDirs(r.dir, r.vdir), c.Faults.Power, every, max)
+		r.disk.KillImages = !c.Faults.Power
 		if c.Faults.Torn {
 			r.disk.Torn = true
 			r.disk.TornEvery = c.Faults.TornEvery
